@@ -257,7 +257,7 @@ def first_words(tier, rnd, shard, nshards):
     if tier == "thorough":
         ws = [w for w in range(0x1000, 0x10000) if (w % nshards) == shard]
         rnd.shuffle(ws)
-        return [(w, 3) for w in ws]
+        return [(w, 12) for w in ws]
     out = [(0x1300, 4)]
     for _ in range(5000):
         r = rnd.random()
@@ -481,7 +481,8 @@ def run_program(s, tmp, prog, known, survey):
         if set(prog["feats"]) & {"loop", "call", "cond"}:
             s.nt(("run",) + tuple(prog["feats"]))
         problems = []
-        if rc == 86 or rc < 0:
+        sanitizer = "ERROR: AddressSanitizer" in err or "runtime error:" in err
+        if rc < 0 or (rc == 86 and sanitizer):          # 86 is also a legal -break_io exit status
             problems.append(("run_crash", "naken_util -run died: rc=%d %s" % (rc, err[-300:])))
         elif exp["exit"] is not None and prog["brk"] == "byte":
             if rc != exp["exit"]:
@@ -540,7 +541,7 @@ def run(tier, seed, shard, nshards):
     tmp = tempfile.mkdtemp(prefix="c14_", dir="/verif/build/tmp" if os.path.isdir("/verif/build/tmp") else None)
     try:
         run_steps(w, s, tier, seed, shard, nshards, known, survey)
-        n = 6 if tier == "quick" else 40
+        n = 6 if tier == "quick" else 150
         hyp_run(lambda p: run_program(s, tmp, p, known, survey), program(), n, shard_seed(seed, shard, "c14run"), s)
     finally:
         w.close()
